@@ -602,7 +602,7 @@ def search_check_pv(prop, judged, tier, seed, build):
     search_check(prop, judged, tier, seed, build, pv=True)
 
 
-def search_check(prop, judged, tier, seed, build, pv=False, uci_extra=None):
+def search_check(prop, judged, tier, seed, build, pv=False, uci_extra=None, extra=None):
     """build(run, vh, quick, rnd, classes, pools, flat, games) -> list of (label, histories);
     uci_extra(run, quick, rnd): a batch on the real binary that needs no in-process harness"""
     import random
@@ -619,6 +619,8 @@ def search_check(prop, judged, tier, seed, build, pv=False, uci_extra=None):
         batches = []
     if uci_extra is not None:
         uci_extra(run, quick, rnd)
+    if extra is not None and vh is not None:
+        extra(run, quick, rnd, vh)
     total = 0
     keys = set()
     alljobs = []
@@ -826,8 +828,43 @@ def c10(tier, seed):
             for d in (1, 3, None):
                 hs.append([srch.step(f, [], limit=d)])
         run.cov["solver_classes"] = {k: len(v) for k, v in classes.items() if k != "_finishing"}
+        run.tt_pool = m1[:10] + m2[:30 if quick else 200] + list(srch.TINY)
         return [("mates", hs)]
-    search_check("C10", {"C10"}, tier, seed, build)
+
+    def table_soundness(run, quick, rnd, vh):
+        # design-level binding of PvsTable.tla: the entries the real search leaves in its table, judged by TLC against the
+        # exhaustive value of their nodes (RefSearch!TT).  Unsound entries are reported as notes (model drift), not verdicts.
+        d = game.trace_dir("C10tt")
+        cases = [{"fen": f, "pre": [], "d": dd, "tt": True, "seed": 1} for f in getattr(run, "tt_pool", []) for dd in (3, 4)]
+        chunks = [cases[i::core.NPROC] for i in range(core.NPROC)]
+
+        def mk(ic):
+            i, chunk = ic
+            script = os.path.join(d, "tt-%d.json" % i)
+            json.dump({"cases": chunk}, open(script, "w"))
+            out = os.path.join(d, "tt-%d.ndjson" % i)
+            core.sh([vh, "tree", "--script", script, "--out", out], timeout=3600)
+            return out
+        outs = core.pmap(mk, [(i, c) for i, c in enumerate(chunks) if c])
+        entries = 0
+        trees = 0
+        unsound = []
+        for out, res in core.pmap(lambda o: (o, core.tlc_trace(o, spec="RefSearch", heap="6g")), outs):
+            run.cov["traces_validated_against_impl"] += 1
+            run.cov["events_validated"] += res["events"]
+            for l in open(out):
+                e = json.loads(l)
+                if "nodes" in e:
+                    trees += 1
+                    entries += e.get("entries", 0)
+            unsound += [f for f in res["fails"] if f["p"] == "DRIFT"]
+        run.cov["table_soundness"] = {"trees": trees, "entries_found_at_interior_nodes": entries, "unsound": len(unsound)}
+        for f in unsound[:3]:
+            note = "model-drift spec=PvsTable: " + f["w"] + " " + json.dumps(f["d"])[:300]
+            run.cov["model_drift"].append(note)
+            run.notes.append(note)
+        shutil.rmtree(d, ignore_errors=True)
+    search_check("C10", {"C10"}, tier, seed, build, extra=table_soundness)
 
 
 @check("C18")
